@@ -104,6 +104,33 @@ Proof.
   apply delete_matured_in_tot in E. apply IH in H. lia.
 Qed.
 
+Lemma begin_unlock_tot : forall st id amt st' n, begin_unlock st id amt = Ok (st', n) -> tot st' = tot st.
+Proof.
+  intros st id amt st' n H. unfold begin_unlock in H. dcase H. dcase H. eapply begin_unlock_core_tot; eassumption.
+Qed.
+
+Lemma begin_unlock_all_tot : forall owner ids st st', begin_unlock_all st owner ids = Ok st' -> tot st' = tot st.
+Proof.
+  intros owner. induction ids as [|id r IH]; intros st st' H; cbn [begin_unlock_all] in H; [injection H as <-; reflexivity|].
+  destruct (s_locks st id) as [l|]; [|apply IH; assumption].
+  destruct ((l_owner l =? owner) && (l_end l =? 0)); [|apply IH; assumption].
+  unfold bind in H. destruct (begin_unlock st id None) as [[st1 n1]|] eqn:E; [|discriminate]. cbn [fst] in H.
+  apply begin_unlock_tot in E. apply IH in H. lia.
+Qed.
+
+Lemma force_unlock_tot : forall cfg st sender id st', force_unlock cfg st sender id = Ok st' -> tot st' = tot st.
+Proof.
+  intros cfg st sender id st' H. unfold force_unlock in H.
+  destruct (s_locks st id) as [l|]; [|discriminate].
+  destruct (negb (l_owner l =? sender)); [discriminate|].
+  destruct (negb (existsb (Z.eqb sender) (c_force cfg))); [discriminate|].
+  unfold bind in H. destruct (synth_by_lock st id) as [[y|]|]; try discriminate.
+  destruct (l_end l =? 0).
+  - destruct (begin_unlock st id None) as [[st1 n1]|] eqn:E; [|discriminate]. cbn [fst] in H. injection H as <-.
+    apply begin_unlock_tot in E. unfold tot in *. ssimpl. assumption.
+  - injection H as <-. reflexivity.
+Qed.
+
 Theorem step_tot : forall cfg st o st' n, step cfg st o = Ok (st', n) -> tot st' = tot st.
 Proof.
   intros cfg st o st' n H. destruct o; cbn [step] in H; unfold bind in H.
@@ -119,7 +146,10 @@ Proof.
     + dcase H. injection H as <- _. lia.
     + dcase H. dcase H. dcase H. dcase H. injection H as <- _.
       apply delete_synth_tot in Heqr1. apply superfluid_delegate_tot in Heqr2. apply create_synth_tot in Heqr3. lia.
-  - dcase H. dcase H. dcase H. dcase H. destruct a as [s m]. injection H as <- _. eapply begin_unlock_core_tot; eassumption.
+  - dcase H. dcase H. dcase H. destruct a as [s m]. injection H as <- _. eapply begin_unlock_tot; eassumption.
+  - dcase H. dcase H. dcase H. eapply begin_unlock_tot; eassumption.
+  - dcase H. injection H as <- _. eapply begin_unlock_all_tot; eassumption.
+  - dcase H. injection H as <- _. eapply force_unlock_tot; eassumption.
   - dcase H. unfold unlock_matured_lock in Heqr. dcase Heqr. dcase Heqr. dcase Heqr. injection Heqr as <-. injection H as <- _. reflexivity.
   - dcase H. injection H as <- _. reflexivity.
   - dcase H. injection H as <- _. apply delete_matured_synths_tot in Heqr. assumption.
